@@ -51,9 +51,20 @@ func checkC16(c *Ctx) {
 			}
 		}
 		info := map[string]interface{}{"doc_hex": fmt.Sprintf("%x", trunc(string(doc), 3000)), "doc_text": printable(doc), "nd": nd}
-		// (i) overwrite after a copying parse
+		// (i) overwrite after a copying parse; one time in two the parse uses the
+		// default options on an object previously used without copying
 		buf := append([]byte{}, doc...)
-		out := implParse(buf, nd, true, nil)
+		var out ParseOut
+		if i%2 == 0 {
+			prev := implParse([]byte(`{"earlier":"call without copying","n":[1,"two"]}`), false, false, nil)
+			if prev.Err || nd {
+				out = implParseDefault(buf, nd, nil)
+			} else {
+				out = implParseDefault(buf, nd, prev.PJ)
+			}
+		} else {
+			out = implParse(buf, nd, true, nil)
+		}
 		if out.Err {
 			continue
 		}
@@ -96,6 +107,33 @@ func checkC16(c *Ctx) {
 				info["nocopy"], info["copy"] = trunc(a, 500), trunc(b, 500)
 				c.Violate("copymode", "no-copy parse exposes a different document than the copying parse", "copymode-doc", info)
 				continue
+			}
+		}
+		// (ii') two results deserialized from the same bytes are independent objects
+		if !nc.Err && i%3 == 0 {
+			sr := simdjson.NewSerializer()
+			if blob, pan := safeSerialize(sr, cp.PJ); pan == "" {
+				a1, e1, _ := safeDeserialize(sr, blob, nil)
+				a2, e2, _ := safeDeserialize(simdjson.NewSerializer(), blob, nil)
+				if e1 == nil && e2 == nil {
+					before := allViews(a2)
+					if pos, perr := flatPositions(a1, 400); perr == nil {
+						for _, p := range pos {
+							if p.IsValue && (p.Tag == simdjson.TagString || p.Tag == simdjson.TagInteger || p.Tag == simdjson.TagFloat) {
+								it := iterAt(a1, p.K)
+								it.SetString("changed in the first copy only")
+								break
+							}
+						}
+					}
+					a3, e3, _ := safeDeserialize(sr, blob, a1) // reuse the first as destination
+					_ = a3
+					if after := allViews(a2); e3 == nil && after != before {
+						info["before"], info["after"] = trunc(before, 400), trunc(after, 400)
+						c.Violate("aliasing", "editing / reusing one deserialized result changed another one", "deser-alias", info)
+						continue
+					}
+				}
 			}
 		}
 		// (iii) clone independence
